@@ -36,7 +36,7 @@ WEIGHTS = {"undo": 5, "redo": 3, "delete_node": 5, "add_node": 5, "update_attrs"
 
 
 def plan(tier, seed):
-    return common.session_plan(PROP, tier, seed, quick=400, thorough=8000)
+    return common.session_plan(PROP, tier, seed, quick=2000, thorough=30000)
 
 
 def run_shard(spec):
